@@ -22,6 +22,7 @@ func runC19(c *Check) {
 	c.settingsLock()
 	c.settingsMisc()
 	c.boolShortening()
+	c.c19H()
 }
 
 // ---- R1
